@@ -65,7 +65,7 @@ func (in *Interp) lastIndexBytes(s, sep []*Term) int {
 func opaqueFreeOf(p *Str, sep string) bool {
 	if p.Kind == sGhost {
 		switch p.G.Ctor {
-		case "b64", "b64x", "b64alt", "itoa":
+		case "b64", "b64x", "b64alt", "b64case", "itoa":
 			return !strings.ContainsAny(sep, "ABCDEFGHIJKLMNOPQRSTUVWXYZabcdefghijklmnopqrstuvwxyz0123456789-_")
 		}
 	}
@@ -176,7 +176,7 @@ func (in *Interp) hasPrefix(s, p *Str) *Term {
 		if a.Kind == sGhost && b.Kind == sBytes && b.B[0].Const {
 			c := byte(b.B[0].Uint())
 			switch a.G.Ctor {
-			case "b64", "b64x", "b64alt":
+			case "b64", "b64x", "b64alt", "b64case":
 				if !strings.ContainsRune("ABCDEFGHIJKLMNOPQRSTUVWXYZabcdefghijklmnopqrstuvwxyz0123456789-_+/=", rune(c)) {
 					return tFalse
 				}
@@ -340,20 +340,51 @@ func init() {
 	reg("strings.EqualFold", func(in *Interp, fn *ssa.Function, args []value) (value, bool) {
 		s, t := args[0].(*Str), args[1].(*Str)
 		if s.Kind != sBytes || t.Kind != sBytes {
-			if sc, ok := s.Concrete(); ok {
-				_ = sc
+			// encoder outputs and opaque strings: equal under folding iff equal, except the explicit case variant of an
+			// encoder output (verifrt.SwapCase). Idealisation: two different digests never encode to texts that
+			// differ in letter case only.
+			fold := func(x *Str) *Str {
+				if x.Kind == sGhost && x.G.Ctor == "b64case" {
+					return ghostStr("b64", x.G.Args[0].(*Str))
+				}
+				return x
 			}
-			// opaque vs literal: consistent unknown
-			return in.freshBool("fold:" + s.Key() + "|" + t.Key()), true
+			flat := func(x *Str) []*Str {
+				if x.Kind == sConcat {
+					return x.Parts
+				}
+				return []*Str{x}
+			}
+			// literal parts are compared under ASCII folding, opaque parts by equality, when the two strings have
+			// the same shape (literal/opaque parts at the same positions, literals of equal length)
+			ps, pt := flat(s), flat(t)
+			if len(ps) == len(pt) {
+				aligned := true
+				var cs []*Term
+				for i := range ps {
+					a, b := ps[i], pt[i]
+					switch {
+					case a.Kind == sBytes && b.Kind == sBytes && len(a.B) == len(b.B):
+						for k := range a.B {
+							cs = append(cs, Eq(asciiLower(a.B[k]), asciiLower(b.B[k])))
+						}
+					case a.Kind != sBytes && b.Kind != sBytes:
+						cs = append(cs, in.strEq(fold(a), fold(b)))
+					default:
+						aligned = false
+					}
+				}
+				if aligned {
+					return And(cs...), true
+				}
+			}
+			return in.strEq(fold(s), fold(t)), true
 		}
 		if len(s.B) != len(t.B) {
 			// non-ASCII folding can change lengths only for multi-byte runes; byte-precise ASCII model
 			return tFalse, true
 		}
-		lower := func(b *Term) *Term {
-			isUp := And(ULe(BVu(8, 'A'), b), ULe(b, BVu(8, 'Z')))
-			return Ite(isUp, BOr(b, BVu(8, 0x20)), b)
-		}
+		lower := asciiLower
 		var cs []*Term
 		for i := range s.B {
 			cs = append(cs, Eq(lower(s.B[i]), lower(t.B[i])))
@@ -513,4 +544,9 @@ func (in *Interp) replaceAllTokens(s, old, nw *Str) *Str {
 		}
 	}
 	return concatStr(out...)
+}
+
+func asciiLower(b *Term) *Term {
+	isUp := And(ULe(BVu(8, 'A'), b), ULe(b, BVu(8, 'Z')))
+	return Ite(isUp, BOr(b, BVu(8, 0x20)), b)
 }
